@@ -13,7 +13,13 @@ use std::path::{Path, PathBuf};
 use std::process::{Command, Stdio};
 use std::time::{Duration, Instant};
 
-pub const VERIF_ROOT: &str = "/verif";
+/// root of the verification tree: /verif, or $VERIF_ROOT when a snapshot of it is being run elsewhere
+pub fn verif_root() -> PathBuf {
+    match std::env::var("VERIF_ROOT") {
+        Ok(p) if !p.is_empty() => PathBuf::from(p),
+        _ => PathBuf::from("/verif"),
+    }
+}
 
 #[derive(Clone, Copy, PartialEq, Eq, Debug)]
 pub enum Tier {
@@ -275,7 +281,7 @@ pub struct KnownEntry {
 }
 
 pub fn load_known() -> Vec<KnownEntry> {
-    let p = Path::new(VERIF_ROOT).join("known_findings.txt");
+    let p = verif_root().join("known_findings.txt");
     let mut out = Vec::new();
     let Ok(s) = std::fs::read_to_string(p) else {
         return out;
@@ -527,7 +533,7 @@ fn slug(s: &str) -> String {
 }
 
 pub fn write_failure_file(prop: &str, sub: &str, f: &FailureReport) -> PathBuf {
-    let dir = Path::new(VERIF_ROOT).join("work").join("failures").join(prop);
+    let dir = verif_root().join("work").join("failures").join(prop);
     let _ = std::fs::create_dir_all(&dir);
     let rf = ReplayFile {
         property: prop.to_string(),
@@ -618,18 +624,18 @@ pub fn run_check(props: &[Property], id: &str, tier: Tier, seed: u64) -> CheckOu
         return CheckOutcome { exit: 2 };
     };
     let exe = std::env::current_exe().expect("current_exe");
-    let work = Path::new(VERIF_ROOT).join("work").join("run").join(format!("{}-{}-{}", id, tier.name(), std::process::id()));
+    let work = verif_root().join("work").join("run").join(format!("{}-{}-{}", id, tier.name(), std::process::id()));
     let _ = std::fs::create_dir_all(&work);
     let known = load_known();
     // failures of earlier runs are stale: the tree may have changed since
-    let _ = std::fs::remove_dir_all(Path::new(VERIF_ROOT).join("work").join("failures").join(id));
+    let _ = std::fs::remove_dir_all(verif_root().join("work").join("failures").join(id));
     let mut violations: Vec<(String, PathBuf)> = Vec::new();
     let mut known_lines: BTreeSet<String> = BTreeSet::new();
     let mut inconclusive: Vec<String> = Vec::new();
 
     // 1. replay tier: committed regression inputs
     let mut replays_run = 0u64;
-    let rdir = Path::new(VERIF_ROOT).join("replays").join(id);
+    let rdir = verif_root().join("replays").join(id);
     let mut files: Vec<PathBuf> = std::fs::read_dir(&rdir)
         .map(|d| d.filter_map(|e| e.ok().map(|e| e.path())).filter(|p| p.extension().map(|e| e == "json").unwrap_or(false)).collect())
         .unwrap_or_default();
@@ -935,7 +941,7 @@ pub fn run_check(props: &[Property], id: &str, tier: Tier, seed: u64) -> CheckOu
         "wall_s": wall,
         "violations": violations.len(),
     });
-    let edir = Path::new(VERIF_ROOT).join("evidence");
+    let edir = verif_root().join("evidence");
     let _ = std::fs::create_dir_all(&edir);
     let epath = edir.join(format!("{}.json", id));
     if let Ok(mut f) = std::fs::File::create(&epath) {
@@ -977,8 +983,8 @@ pub fn run_check(props: &[Property], id: &str, tier: Tier, seed: u64) -> CheckOu
 
 /// run one libFuzzer campaign of fixed work; infrastructure problems are recorded, never fatal
 fn run_fuzz_stage(id: &str, spec: &FuzzSpec, seed: u64) -> (Value, u64, Vec<(String, PathBuf)>) {
-    let fuzz_dir = Path::new(VERIF_ROOT).join("fuzz");
-    let work = Path::new(VERIF_ROOT).join("work").join("fuzz").join(format!("{}-{}-{}", id, spec.target, std::process::id()));
+    let fuzz_dir = verif_root().join("fuzz");
+    let work = verif_root().join("work").join("fuzz").join(format!("{}-{}-{}", id, spec.target, std::process::id()));
     let corpus = work.join("corpus");
     let artifacts = work.join("artifacts");
     let _ = std::fs::create_dir_all(&corpus);
@@ -1048,7 +1054,7 @@ fn run_fuzz_stage(id: &str, spec: &FuzzSpec, seed: u64) -> (Value, u64, Vec<(Str
                 let mut saved = None;
                 if let Ok(rd) = std::fs::read_dir(&artifacts) {
                     for e in rd.flatten() {
-                        let dst = Path::new(VERIF_ROOT).join("work").join("failures").join(id);
+                        let dst = verif_root().join("work").join("failures").join(id);
                         let _ = std::fs::create_dir_all(&dst);
                         let to = dst.join(format!("fuzz-{}-{}", spec.target, e.file_name().to_string_lossy()));
                         if std::fs::copy(e.path(), &to).is_ok() {
